@@ -57,11 +57,42 @@ let run_frame (toks : string list) : string =
   | [ "lusing"; fixed; bs ] -> show_outcome (Model.legacy_using (nat fixed) (bytes_of_hex bs))
   | _ -> "?bad-case"
 
+(* ---- component: scratch (C12, the serializer's scratch space) ---------------
+   lifo|free  p<size>:<align> ... o<k>:<size>:<align> ...      (hex)
+   -> one token per step (s<off> h<off> a<id> | ok err panic bad), then
+      "| <pos of the first buffer> <pos of the second buffer or -> <allocations in progress>" *)
+let run_scratch (toks : string list) : string =
+  match toks with
+  | kind :: ops when kind = "lifo" || kind = "free" ->
+    let parse t =
+      let head = String.sub t 0 1 and rest = String.sub t 1 (String.length t - 1) in
+      match head, String.split_on_char ':' rest with
+      | "p", [ size; align ] -> Model.OPush (n size, n align)
+      | "o", [ k; size; align ] -> Model.OPop (n k, n size, n align)
+      | _ -> failwith "bad op"
+    in
+    let outs, sf = Model.run_trace (List.map parse ops) Model.init [] in
+    let show = function
+      | Model.SPushed (Model.HStack o) -> "s" ^ h o
+      | Model.SPushed (Model.HHeap o) -> "h" ^ h o
+      | Model.SPushed (Model.HAlloc i) -> "a" ^ h i
+      | Model.SPopOk -> "ok"
+      | Model.SPopErr -> "err"
+      | Model.SPopPanic -> "panic"
+      | Model.SBadIndex -> "bad"
+    in
+    let heap_pos = match sf.Model.heap with Some b -> h b.Model.pos | None -> "-" in
+    String.concat " " (List.map show outs)
+    ^ " | " ^ h sf.Model.stack.Model.pos ^ " " ^ heap_pos ^ " "
+    ^ Printf.sprintf "%x" (List.length sf.Model.allocs)
+  | _ -> "?bad-case"
+
 let () =
   let comp = if Array.length Sys.argv > 1 then Sys.argv.(1) else "" in
   let f =
     match comp with
     | "frame" -> run_frame
+    | "scratch" -> run_scratch
     | _ -> prerr_endline ("unknown component " ^ comp); exit 2
   in
   let out = Buffer.create 65536 in
